@@ -19,7 +19,7 @@ CHECKS = {
          "trusted: ref/record.go (documented record layout), hash/crc32; CRC collisions (2^-32) ignored",
          "fault injection (byte/bit corruption, truncation) with a reference-decoder oracle over positional and streaming reads (plain + asan builds)"),
  "C14": ("exploration",
-         "Generated hint item multisets written through both hint writers, read back by the store's reader and by an independent parser, every present and a set of absent keys looked up through both index forms, k-way merges compared with a reference merge and the expected collision table.",
+         "Generated hint item multisets written through both hint writers, read back by the store's reader and by an independent parser, every present and a set of absent keys looked up through both index forms, k-way merges (sources with their own file id and sources that are further hint splits of one file) compared with a reference merge and the expected collision table.",
          "DESIGN.md section 4 (C14)",
          "trusted: ref/hint.go (hint layout and reference merge)",
          "in-package runtime differential oracle over generated hint files (reference parser + reference merge)"),
@@ -29,12 +29,12 @@ CHECKS = {
          "trusted: ref.RefMap (version arithmetic written from the property), ref value generator; open dimensions (incr versions, tombstones after rebuild) adopted",
          "reference-model monitor (RefMap oracle) over generated histories, in-process at the StorageClient boundary"),
  "C02": ("exploration",
-         "C01 histories with clean restarts at generated positions; at each restart the closed directory is reopened once per index-file subset (exhaustive 2^k when k<=6 in thorough) and every variant compared with the reference map; plus deterministic and randomized shutdown schedules: the post-rotation flush goroutine parked at its entry hook while Close() completes (directory copied at that instant), and flusher/hint-dumper loop bodies racing with Close under yield injection (plain and race builds). The server's own graceful shutdown is exercised with the real memcache.Server on loopback TCP (Main's sequence: Shutdown as the signal handler calls it, Serve returns, HStore.Close; the directory is copied when Close returns): clients write all the time, connections that are idle at the signal write again when Serve has returned or at the 1st..3rd file-system step of Close; every set acknowledged before Close returned must be served after reopening the copy.",
+         "C01 histories with clean restarts at generated positions; at each restart the closed directory is reopened once per index-file subset (exhaustive 2^k when k<=6 in thorough) and every variant compared with the reference map; under check_vhash three live keys are set to their own value right after every restart (must be 'not really set': probes the value hash kept in rebuilt indexes); plus deterministic and randomized shutdown schedules: the post-rotation flush goroutine parked at its entry hook while Close() completes (directory copied at that instant), and flusher/hint-dumper loop bodies racing with Close under yield injection (plain and race builds). The server's own graceful shutdown is exercised with the real memcache.Server on loopback TCP (Main's sequence: Shutdown as the signal handler calls it, Serve returns, HStore.Close; the directory is copied when Close returns): clients write all the time, connections that are idle at the signal write again when Serve has returned or at the 1st..3rd file-system step of Close; every set acknowledged before Close returned must be served after reopening the copy.",
          "DESIGN.md section 4 (C02)",
          "restart = fresh store instance on a copy of the directory taken when Close returns (same process, globals re-initialised by NewHStore); tombstone versions adopted after restart as the quantifier allows",
          "reference-model monitor + index-file fault enumeration + hook-controlled shutdown schedules (park/release, yield injection) + race detector"),
  "C03": ("exploration",
-         "Histories over many tiny data files with GC passes over run-time-enumerated legal ranges (merge on/off, via HStore.GC and via the GC manager), followed by writes, more passes and restarts with index subsets removed; all keys read back against the reference map after every pass and restart, and an independent decoder confirms that each live key's record is where the tree points.",
+         "Histories over many tiny data files with GC passes over run-time-enumerated legal ranges (merge on/off, via HStore.GC and via the GC manager), followed by writes, more passes and restarts with index subsets removed; half of the passes start with the newest acknowledged writes still in the head file's write buffer, and in half of the children some passes are preceded by bit rot in garbage (one byte of a superseded record inverted on disk); all keys read back against the reference map after every pass and restart, and an independent decoder confirms that each live key's record is where the tree points.",
          "DESIGN.md section 4 (C03)",
          "trusted: ref.RefMap, ref record decoder; store background goroutines quiescent before each pass (hook counters); record size <= half the data-file limit (a record larger than a whole data file is outside the quantifier)",
          "reference-model monitor over generated GC histories + independent on-disk decoder"),
@@ -54,7 +54,7 @@ CHECKS = {
          "trusted: ref/merkle.go (hash, count and listing rules written from the documented behaviour), ref.KeyHash/ValueHash (validated by C16)",
          "differential runtime oracle: reference recomputation + history-independence comparison of real trees/stores"),
  "C10": ("exploration",
-         "Store level: values on both sides of every compression decision threshold (record size 256, 10 KB probe, ratio, sniffed audio types, client-compressed flag, up to 4 MB) set and read back from the write buffer, the flushed file and after restarts with rebuilt indexes, judged by the reference map; the stored record is inspected to report which way the server decided. Codec level: C<->Go round trips in both directions, including a value class whose only repeat lies at an exact boundary distance (255 .. 262145 bytes back: window and offset-field limits of the compressors). Hostile input: random, mutated, truncated and self-consistent-header streams fed to both safe decompressors in an asan-instrumented child (recover mode, every report classified).",
+         "Store level: values (arbitrary 32-bit client flags without the reserved bit) on both sides of every compression decision threshold (record size 256, 10 KB probe, ratio, sniffed audio types, client-compressed flag, up to 4 MB) set and read back from the write buffer, the flushed file and after restarts with rebuilt indexes, judged by the reference map; the stored record is inspected to report which way the server decided. Codec level: C<->Go round trips in both directions, including a value class whose only repeat lies at an exact boundary distance (255 .. 262145 bytes back: window and offset-field limits of the compressors). Hostile input: random, mutated, truncated and self-consistent-header streams fed to both safe decompressors in an asan-instrumented child (recover mode, every report classified).",
          "DESIGN.md section 4 (C10)",
          "asan instruments quicklz.c; QuickLZ's word-wise source fetch (fast_read, <= 3 bytes past the source) is classified informational, every other report is a violation; hostile claimed sizes capped at 16 MB",
          "reference-model monitor + cross-implementation differential + AddressSanitizer on hostile inputs"),
@@ -79,7 +79,7 @@ CHECKS = {
          "Go scheduler not controlled (random-schedule cases are statistical; evidence reports distinct schedule signatures); C-memory races only via asan/poison",
          "history recording + offline linearizability checking (rules + porcupine), hook-based schedule perturbation and park/release, race detector, AddressSanitizer"),
  "C05": ("exploration",
-         "C04 recorder and checkers with one GC pass beside the clients (legal range, merge on/off, optional CancelGC placed at any of GC's hook points: before the first file, at later file boundaries and at every per-record step), final read-back, then restart with an index subset removed and a read-back against the last acknowledged write per key; 48 deterministic placements of a client set/delete/get/CancelGC at GC's per-record steps for the same key (GC goroutine parked at the hook), 8 placements of a client set of a key with the SAME 64-bit hash as the record being relocated, and 2 orderings in which the periodic hint dumper is parked inside a chunk that the pass is about to clear.",
+         "C04 recorder and checkers with one GC pass beside the clients (legal range, merge on/off, optional CancelGC placed at any of GC's hook points: before the first file, at later file boundaries and at every per-record step), final read-back, then restart with an index subset removed and a read-back against the last acknowledged write per key; 48 deterministic placements of a client set/delete/get/CancelGC at GC's per-record steps for the same key (GC goroutine parked at the hook), 8 placements of a client set of a key with the SAME 64-bit hash as the record being relocated, 2 orderings in which the periodic hint dumper is parked inside a chunk that the pass is about to clear, and 2 orderings in which a pass is requested while the store's asynchronous post-rotation flush of the previous file is still pending (parked at its entry hook) and the new head file is already on disk.",
          "DESIGN.md section 4 (C05)",
          "read errors while a position is being relocated are counted, not judged (documented 'omit it' behaviour); the hint dumper loop is left out of the race build (GC vs dumper data races are listed in DESIGN.md as observed, outside the property)",
          "history recording + offline linearizability checking, deterministic park/release placements at GC hook points, race detector, AddressSanitizer"),
@@ -94,7 +94,7 @@ CHECKS = {
          "crash model SIGKILL = prefix of completed syscalls (no reordering, no power loss); writes to *.tmp files are not hooked; Go QuickLZ decoder used to read server-compressed records from disk",
          "crash-point enumeration by directory snapshots at hooked FS mutations + recovery in a fresh process + reference-scanner oracle"),
  "C07": ("fault_enumeration",
-         "Same snapshot machinery around one GC pass (after every relocated record, truncate, source/hint removal, hint tmp create/rename, nextgc.txt, collision file; torn variants of relocated-record writes) over generated, staged and directed layouts and legal ranges (destination in place / fresh / an earlier non-full file / an earlier file that fills up so that the destination switches into the range or onto the source being read; observed through the GC hooks); a fresh process on every snapshot must serve exactly the pre-GC model. Stage 2: sampled recovered stores run the interrupted pass again (or another legal one), are killed a second time at every mutation, closed and reopened; all read-backs must still equal the pre-GC model.",
+         "Same snapshot machinery around one GC pass (after every relocated record, truncate, source/hint removal, hint tmp create/rename, nextgc.txt, collision file; torn variants of relocated-record writes) over generated, staged and directed layouts and legal ranges (destination in place / fresh / an earlier non-full file / an earlier file that fills up so that the destination switches into the range or onto the source being read; delete records of keys without a tree entry as the last kept records of a source; observed through the GC hooks); a fresh process on every snapshot must serve exactly the pre-GC model. Stage 2: sampled recovered stores run the interrupted pass again (or another legal one), are killed a second time at every mutation, closed and reopened; all read-backs must still equal the pre-GC model.",
          "DESIGN.md sections 4 (C07) and 15",
          "as C06; no client writes during the pass",
          "crash-point enumeration inside GC + recovery in a fresh process + pre-GC reference model oracle"),
